@@ -107,8 +107,10 @@ class ProcEnv:
         raise Unsupported(f"no content model for {p}")
 
     # -- primitives ------------------------------------------------------------
-    def bcat(self, it, path, fallback=None, **kw):
-        has_fb = "fallback" in kw or fallback is not None
+    def bcat(self, it, path, *a, **kw):
+        if a:
+            kw["fallback"] = a[0]
+        has_fb = "fallback" in kw
         try:
             self.outcome(path, "read:" + path_text(path))
         except PyRaise:
